@@ -71,6 +71,11 @@ pub struct Case {
     /// block with collect() in between; 2 block by block with small reads in between
     #[serde(default)]
     pub drive: u8,
+    /// a window limit configured AFTER the history, right before the probe - on the new decoder
+    /// before its first frame, on the reused one between frames: (kind, value) with kind 0 = probe
+    /// window - 1 - value, 1 = exactly the probe window, 2 = half of it, 3 = value KiB
+    #[serde(default)]
+    pub limit: Option<(u8, u16)>,
 }
 
 fn crafted_first() -> impl Strategy<Value = CompSpec> {
@@ -124,7 +129,7 @@ fn probe_strategy(max_len: u32) -> impl Strategy<Value = Probe> {
 
 fn case_strategy(tier: Tier) -> impl Strategy<Value = Case> {
     let max_len = if tier == Tier::Quick { 40_000 } else { 400_000 };
-    (prop::collection::vec(dict_strategy(), 0..=2), prop::collection::vec(step_strategy(max_len), 1..=6), probe_strategy(max_len), prop_oneof![2 => Just(0u8), 2 => Just(1u8), 1 => Just(2u8)]).prop_map(|(dicts, history, probe, drive)| Case { dicts, history, probe, drive })
+    (prop::collection::vec(dict_strategy(), 0..=2), prop::collection::vec(step_strategy(max_len), 1..=6), probe_strategy(max_len), prop_oneof![2 => Just(0u8), 2 => Just(1u8), 1 => Just(2u8)], prop_oneof![3 => Just(None), 1 => (0u8..=3, prop_oneof![Just(0u16), any::<u16>()]).prop_map(Some)]).prop_map(|(dicts, history, probe, drive, limit)| Case { dicts, history, probe, drive, limit })
 }
 
 fn crafted_spec(first: &CompSpec, rest: &FrameSpec) -> FrameSpec {
@@ -489,6 +494,25 @@ pub fn check(case: &Case, ctx: &mut CaseCtx) -> CaseResult {
     };
     let drive = case.drive % 3;
     let mut fresh = new_decoder(&dicts)?;
+    let mut truth = truth;
+    let mut limited_out = false;
+    if let (Some((kind, val)), Ok(h)) = (case.limit, frame::parse_header(&probe_bytes)) {
+        let w = h.window_size;
+        let l = match kind % 4 {
+            0 => w.saturating_sub(1 + val as u64),
+            1 => w,
+            2 => w / 2,
+            _ => val as u64 * 1024,
+        };
+        fresh.set_max_window_size(l);
+        reused.set_max_window_size(l);
+        ctx.feat(if l < w { "limit:lowered_below_the_probe_window_between_frames" } else { "limit:set_between_frames_at_or_above_the_probe_window" });
+        if l < w {
+            // (that a new decoder refuses the frame is C11's subject; here: both answer alike)
+            truth = None;
+            limited_out = true;
+        }
+    }
     let of = run_probe(&mut fresh, &probe_bytes, force, drive);
     let or = run_probe(&mut reused, &probe_bytes, force, drive);
     if of != or {
@@ -504,6 +528,8 @@ pub fn check(case: &Case, ctx: &mut CaseCtx) -> CaseResult {
     }
     if let Some(t) = &truth {
         ensure!(or.result.starts_with("ok") && &or.bytes == t, "wrong_content", "{label}: valid probe on a reused decoder: result `{}`, {}", or.result, first_diff(&or.bytes, t));
+    } else if limited_out {
+        ctx.feat_if(!of.result.starts_with("ok"), "limit:probe_refused_by_both");
     } else if !matches!(case.probe, Probe::PastWindow { .. }) {
         // probes that are invalid by construction must not succeed (on either decoder).
         // (Not asserted for the past-the-window probe: a decoder that happens to still hold older
